@@ -21,6 +21,7 @@ import extract as X  # noqa: E402
 
 REPO = os.environ.get('VERIF_REPO', '/repo')
 MEM_LIMIT = 10 * 1024 * 1024 * 1024
+TIER = 'quick'
 
 BASE_CHECKS = ['--bounds-check', '--pointer-check', '--div-by-zero-check',
                '--signed-overflow-check', '--pointer-overflow-check',
@@ -119,7 +120,8 @@ def compile_spec(u, bdir, tag, canary_for, log):
             defs.append('-DCANARY_%s=' % t)
     out = 'spec_%s.gb' % tag
     cmd = ['goto-cc', '-I', u['dir'], '-I', os.path.join(VERIF, 'vstd'), '-DVERIF_CBMC=1'] + defs + \
-          u.get('c_defines', []) + ['-c', os.path.join(u['dir'], 'spec.c'), '-o', out]
+          (u.get('c_defines_thorough', u.get('c_defines', [])) if TIER == 'thorough' else u.get('c_defines', [])) + \
+          ['-c', os.path.join(u['dir'], 'spec.c'), '-o', out]
     rc, o = sh(cmd, bdir, 120, log)
     if rc != 0:
         raise Inconclusive('spec.c does not compile (unit %s): %s' % (u['name'], o[-2000:]))
@@ -242,6 +244,8 @@ def run_cbmc_sharded(bdir, gb, h, cmd, to, log):
 
 def run_harness(u, h, bdir, tier, unit_info):
     """Returns dict(status, obligations, failed[], wall_s, ...)."""
+    global TIER
+    TIER = tier
     name = h['name']
     log = os.path.join(bdir, name + '.log')
     open(log, 'w').close()
